@@ -133,6 +133,7 @@ type snapOpts struct {
 	Pinned    map[string]int64 // path -> unix seconds: compare mtime for these
 	NoPerm    bool
 	NoContent bool
+	Special   bool // also show the setuid, setgid and sticky bits
 }
 
 // takeSnapshot walks fs from the root with ReadDir + Stat + ReadFile and probes candidate paths.
@@ -181,6 +182,9 @@ func takeSnapshot(fs hackpadfs.FS, o snapOpts) *snapshot {
 			}
 			if !o.NoPerm {
 				line += fmt.Sprintf(" %04o", info.Mode().Perm())
+				if sp := info.Mode() & (hackpadfs.ModeSetuid | hackpadfs.ModeSetgid | hackpadfs.ModeSticky); o.Special && sp != 0 {
+					line += "+" + strings.TrimLeft(sp.String(), "-")
+				}
 			}
 			if !info.IsDir() {
 				ei.Size = info.Size()
